@@ -1224,7 +1224,8 @@ fn write_hover_escape_string<W: Write>(s: &str, w: &mut W) -> fmt::Result {
             '\n' => w.write_str("\\n")?,
             '\r' => w.write_str("\\r")?,
             '\t' => w.write_str("\\t")?,
-            '\u{1b}' => w.write_str("\\27")?,
+            // three digits: a shorter decimal escape would swallow a following digit (`\272`)
+            '\u{1b}' => w.write_str("\\027")?,
             ch if ch.is_control() => {
                 let code = ch as u32;
                 if code <= 0xFF {
